@@ -210,6 +210,9 @@ theorem invD_step {k : Nat} {s s' : St V} {l : Label V} (ha : InvA k s) (hi : In
   | cCtx =>
     obtain ⟨hp, rfl⟩ := step_cCtx h
     exact ⟨by simp, hi.wg⟩
+  | cExpire =>
+    obtain ⟨hp, rfl⟩ := step_cExpire h
+    exact ⟨by simp, hi.wg⟩
   | cClose =>
     obtain ⟨hp, rfl⟩ := step_cClose h
     exact ⟨by simp, hi.wg⟩
@@ -233,6 +236,15 @@ theorem invD_step {k : Nat} {s s' : St V} {l : Label V} (ha : InvA k s) (hi : In
       rcases hi.shape _ hp with h | ⟨h, h1⟩ | ⟨h, h1, h2⟩ | ⟨h, _⟩ <;> simp at h
       subst h
       exact .inr (.inr (.inr ⟨rfl, h1, h2, hw⟩))
+  | ctxEnds =>
+    obtain ⟨_, _, rfl⟩ := step_ctxEnds h
+    refine ⟨?_, hi.wg⟩
+    intro r hr
+    rcases hi.shape r hr with h | ⟨h, h1⟩ | ⟨h, h1, _⟩ | ⟨h, h1, _, h3⟩
+    · exact .inl h
+    · exact .inr (.inl ⟨h, h1⟩)
+    · exact .inr (.inr (.inl ⟨h, h1, rfl⟩))
+    · exact .inr (.inr (.inr ⟨h, h1, rfl, h3⟩))
 
 theorem reach_invD {k : Nat} {s : St V} (h : Reach (init V k) s) : InvD s := by
   induction h with
@@ -301,8 +313,9 @@ theorem trans_rank {g g' : G V} (t : Trans g g') (hn : ∀ v, g.pc = .send v →
   | wgDone rest hp => simp [hp, rank, wE]
   | fin hp => simp [hp, rank]
 
-/-- Classification of a step by who moves. -/
-theorem step_class {s s' : St V} {l : Label V} (h : step s l = some s') :
+/-- Classification of a step by who moves (`ho`: the context ends only through `cancel()`, so the
+environment label `ctxEnds` is dead). -/
+theorem step_class {s s' : St V} {l : Label V} (ho : s.origin = .plainCancel) (h : step s l = some s') :
     (∃ i g g', s.gs[i]? = some g ∧ Trans g g' ∧ s'.gs = s.gs.set i g' ∧ s'.cpc = s.cpc ∧
         ∀ v, g.pc = .send v → g' ≠ again g) ∨
     (∃ live, s.cpc = .inNext live) ∨ s.cpc = .idle ∨
@@ -316,6 +329,7 @@ theorem step_class {s s' : St V} {l : Label V} (h : step s l = some s') :
                  exact .inl ⟨i, g, _, hg, .err g _ hp, rfl, rfl, fun w hw => by rw [hp] at hw; cases hw⟩
   | inCtx i => obtain ⟨g, hg, hp, _, rfl⟩ := step_inCtx h
                exact .inl ⟨i, g, _, hg, .err g _ hp, rfl, rfl, fun w hw => by rw [hp] at hw; cases hw⟩
+  | ctxEnds => exact (no_ctxEnds ho h).elim
   | cas i =>
     obtain ⟨g, e, hg, hp, hc⟩ := step_cas h
     rcases hc with ⟨_, rfl⟩ | ⟨_, rfl⟩
@@ -348,6 +362,7 @@ theorem step_class {s s' : St V} {l : Label V} (h : step s l = some s') :
   | cCall live => obtain ⟨hp, rfl⟩ := step_cCall h; exact .inr (.inr (.inl hp))
   | cEnd => obtain ⟨live, hp, _, rfl⟩ := step_cEnd h; exact .inr (.inl ⟨live, hp⟩)
   | cCtx => obtain ⟨hp, rfl⟩ := step_cCtx h; exact .inr (.inl ⟨false, hp⟩)
+  | cExpire => obtain ⟨hp, rfl⟩ := step_cExpire h; exact .inr (.inl ⟨true, hp⟩)
   | cClose => obtain ⟨hp, rfl⟩ := step_cClose h; exact .inr (.inr (.inl hp))
   | cCloseStep =>
     rcases step_cCloseStep h with ⟨rest, hp, rfl⟩ | ⟨rest, hp, rfl⟩ | ⟨rest, hp, _, rfl⟩
@@ -358,9 +373,9 @@ theorem step_class {s s' : St V} {l : Label V} (h : step s l = some s') :
 /-- Once `Close` of the merged stream has been called, every step whatsoever (of a goroutine, of
 `Close`, even an input returning something) strictly decreases `nu`, and `Close` stays in progress. -/
 theorem after_close_decreases {s s' : St V} {l : Label V} {rest : List CloseStep}
-    (hc : s.cpc = .closing rest) (h : step s l = some s') :
+    (ho : s.origin = .plainCancel) (hc : s.cpc = .closing rest) (h : step s l = some s') :
     nu s' < nu s ∧ ∃ rest', s'.cpc = .closing rest' := by
-  rcases step_class h with ⟨i, g, g', hg, t, hgs, hcpc, hne⟩ | ⟨live, hl⟩ | hl | ⟨x, r, hx, hx', hgs⟩
+  rcases step_class ho h with ⟨i, g, g', hg, t, hgs, hcpc, hne⟩ | ⟨live, hl⟩ | hl | ⟨x, r, hx, hx', hgs⟩
   · have hr := trans_rank t hne
     have hsum := sumBy_set (fun g => rank g.pc) s.gs i g' g hg
     refine ⟨?_, rest, by rw [hcpc, hc]⟩
@@ -468,7 +483,8 @@ def InternalRun : St V → List (Label V) → Prop
 
 /-- Hence: from any state in which `Close` was requested, some run of steps needing no further
 input ends with `Close` returned and every goroutine finished. -/
-theorem after_close_finishes {k : Nat} : ∀ (n : Nat) (s : St V) (rest : List CloseStep), InvA k s → InvD s →
+theorem after_close_finishes {k : Nat} (ho : ctxOrigin = .plainCancel) :
+    ∀ (n : Nat) (s : St V) (rest : List CloseStep), InvA k s → InvD s →
     s.cpc = .closing rest → nu s ≤ n →
     ∃ ls s', run s ls = some s' ∧ InternalRun s ls ∧ s'.cpc = .closing [] ∧ ∀ g, g ∈ s'.gs → g.pc = .finished := by
   intro n
@@ -486,7 +502,7 @@ theorem after_close_finishes {k : Nat} : ∀ (n : Nat) (s : St V) (rest : List C
             Classical.byContradiction fun hne => hcon ⟨g, hg, hne⟩
         · exact .inl hr
       obtain ⟨l, _, s1, hs1⟩ := after_close_enabled ha hd hc hnf
-      have := (after_close_decreases hc hs1).1
+      have := (after_close_decreases (ha.org.trans ho) hc hs1).1
       omega
   | succ n ih =>
     intro s rest ha hd hc hn
@@ -500,7 +516,7 @@ theorem after_close_finishes {k : Nat} : ∀ (n : Nat) (s : St V) (rest : List C
             Classical.byContradiction fun hne => hcon ⟨g, hg, hne⟩
         · exact .inl hr
       obtain ⟨l, hl, s1, hs1⟩ := after_close_enabled ha hd hc hnf
-      obtain ⟨hlt, rest1, hc1⟩ := after_close_decreases hc hs1
+      obtain ⟨hlt, rest1, hc1⟩ := after_close_decreases (ha.org.trans ho) hc hs1
       obtain ⟨ls, s', hrun, hint, hdone⟩ := ih s1 rest1 (invA_step ha hs1) (invD_step ha hd hs1) hc1 (by omega)
       refine ⟨l :: ls, s', by simp [run, hs1, hrun], ⟨hl, ?_⟩, hdone⟩
       intro s2 hs2
